@@ -1737,6 +1737,27 @@ impl Analyzable for Expression
 				let left = left.analyze(typer);
 				typer.contextual_type = Some(Ok(ValueType::Usize));
 				let right = right.analyze(typer);
+				// The pointer is advanced by a number of elements,
+				// which therefore need to have a size.
+				match left.value_type()
+				{
+					Some(Ok(ValueType::Pointer { deref_type }))
+						if typer.holds_opaque_structure(&ValueType::Array {
+							element_type: deref_type.clone(),
+							length: 1,
+						}) =>
+					{
+						return Expression::Poison(Poison::Error(
+							Error::InvalidOperandType {
+								value_type: ValueType::Pointer { deref_type },
+								possible_types: Vec::new(),
+								location_of_op,
+								location_of_operand: left.location().clone(),
+							},
+						));
+					}
+					_ => (),
+				}
 				Expression::Binary {
 					op,
 					left: Box::new(left),
